@@ -191,7 +191,7 @@ def case_energy(c, rng, tier):
         c.judge('oracle quadrature converged', qerr * 1e-10, 1e-10)
         # closed-form kernels against quadrature: the observed round-off grows with the meridional order (thorough-tier calibration:
         # 0.87e-9 at 6 terms, < 0.2e-9 up to 4 terms)
-        tolE = 1e-9 * max(1.0, max(cc.m1, cc.m2) / 4.0) ** 4
+        tolE = 2e-9 * max(1.0, max(cc.m1, cc.m2) / 4.0) ** 4
         ratio, ij = entrywise_excess(K[np.ix_(free, free)], Ko[np.ix_(free, free)], S[np.ix_(free, free)], tolE)
         mech = None
         if ratio > 1 and d['model'] == 'clpt_sanders_bc3':
